@@ -406,7 +406,6 @@ func lkRun(t *testing.T, r *vfRand, c *lkCase, public bool, hooks ...*lkHooks) *
 	stampsBefore := d.routingTable.GetTrackedCplsForRefresh()
 
 	termSeen := false
-	seqAtTerm := -1
 	followDone := 0
 	cancelled := false
 	drainEvents := func() {
@@ -419,9 +418,6 @@ func lkRun(t *testing.T, r *vfRand, c *lkCase, public bool, hooks ...*lkHooks) *
 				o.events = append(o.events, ev)
 				if ev.Terminate != nil && !termSeen {
 					termSeen = true
-					node.gate.mu.Lock()
-					seqAtTerm = node.gate.seq
-					node.gate.mu.Unlock()
 				}
 			default:
 				return
@@ -444,7 +440,7 @@ func lkRun(t *testing.T, r *vfRand, c *lkCase, public bool, hooks ...*lkHooks) *
 			cancelled = true
 			followStarted := false
 			for _, p := range pending {
-				if termSeen && p.seq >= seqAtTerm {
+				if p.origin == "followup" {
 					followStarted = true
 				}
 			}
@@ -490,7 +486,7 @@ func lkRun(t *testing.T, r *vfRand, c *lkCase, public bool, hooks ...*lkHooks) *
 		if recordSend(call) {
 			return i
 		}
-		if termSeen && call.seq >= seqAtTerm {
+		if call.origin == "followup" {
 			followDone++
 		} else {
 			o.evs = append(o.evs, "Arrive "+simKadCoq([]byte(call.p)))
